@@ -216,3 +216,57 @@ add('C17.twin_divide', 'C17', (UQT, "  inverse_scales = 1.0 / scales\n  # TODO: 
     (), 'divide by the scale instead of multiplying by its inverse (same rational function)', kind='twin')
 add('C17.twin_widen_int64', 'C17', (UQT, "tensor_data.astype(np.float64) - quantization_params.zero_point", "tensor_data.astype(np.int64) - quantization_params.zero_point"),
     (), 'widen to int64 instead of float64', kind='twin')
+
+# ---------------------------------------------------------------------- C11
+add('C11.break_first', 'C11', (RM, "          result_config = selected_recipe.op_config\n          result_key = selected_recipe.algorithm_key\n",
+    "          result_config = selected_recipe.op_config\n          result_key = selected_recipe.algorithm_key\n          break\n"),
+    'C11.R3', 'first applicable rule of a scope wins', control=True)
+add('C11.re_match', 'C11', (RM, "      if re.search(scope_regex, scope_name):", "      if re.match(scope_regex, scope_name):"), 'C11.R3', 're.match anchors the regex at the start of the scope')
+add('C11.re_swapped', 'C11', (RM, "      if re.search(scope_regex, scope_name):", "      if re.search(scope_name, scope_regex):"), 'C11.R3', 'regex and scope swapped')
+add('C11.except_narrow', 'C11', (RM, "            except ValueError:\n              continue  # Skip the recipe if it is not supported.", "            except KeyError:\n              continue  # Skip the recipe if it is not supported."),
+    ('C11.R4', 'C11.R3'), 'resolve-time check no longer swallows ValueError')
+add('C11.check_rule_op', 'C11', (RM, "                  recipe.algorithm_key, target_op_name, recipe.op_config", "                  recipe.algorithm_key, recipe.operation, recipe.op_config"),
+    ('C11.R4', 'C11.R3'), 'support check asked about the rule operator ("*") instead of the target')
+add('C11.remove_append', 'C11', (RM, "        else:\n          op_config = existing_config\n        configs.append(op_config)\n      if is_new_op:\n        configs.append(config)",
+    "        else:\n          configs.append(existing_config)\n      configs.append(config)"), 'C11.R5', 'replacing a rule moves it to the end of its scope')
+add('C11.star_appends', 'C11', (RM, "    if config.operation == _TFLOpName.ALL_SUPPORTED:\n      self._scope_configs[regex] = [config]\n      return",
+    "    if config.operation == _TFLOpName.ALL_SUPPORTED:\n      self._scope_configs.setdefault(regex, []).append(config)\n      return"), 'C11.R5', '"*" no longer resets the rules of its scope')
+add('C11.readd_moves_scope', 'C11', (RM, "    if regex not in self._scope_configs:\n      self._scope_configs[regex] = [config]\n    else:",
+    "    if regex not in self._scope_configs:\n      self._scope_configs[regex] = [config]\n    elif len(self._scope_configs[regex]) == 1 and self._scope_configs[regex][0].operation == config.operation:\n      del self._scope_configs[regex]\n      self._scope_configs[regex] = [config]\n    else:"),
+    'C11.R5', 'replacing the only rule of a scope moves the scope to the end of the scan order')
+_ADD_OLD = """    if regex not in self._scope_configs:
+      self._scope_configs[regex] = [config]
+    else:
+      # Reiterate configs to avoid duplication on op settings.
+      configs = []
+      is_new_op = True
+      for existing_config in self._scope_configs[regex]:
+        if existing_config.operation == config.operation:
+          is_new_op = False
+          op_config = config
+          logging.warning(
+              'Overwrite operation %s config under scope_regex %s with %s.',
+              existing_config.operation,
+              regex,
+              config,
+          )
+        else:
+          op_config = existing_config
+        configs.append(op_config)
+      if is_new_op:
+        configs.append(config)
+      self._scope_configs[regex] = configs
+"""
+_ADD_REFACTORED = """    scope_recipes = self._scope_configs.setdefault(regex, [])
+    for i, existing_config in enumerate(scope_recipes):
+      if existing_config.operation == config.operation:
+        scope_recipes[i] = config
+        return
+    scope_recipes.append(config)
+"""
+add('C11.twin_refactor', 'C11', (RM, _ADD_OLD, _ADD_REFACTORED), (), 'in-place replace refactor with the scope list fetched AFTER the support check', kind='twin')
+add('C11.setdefault_early', 'C11', [(RM, _ADD_OLD, _ADD_REFACTORED.replace("    scope_recipes = self._scope_configs.setdefault(regex, [])\n", "")),
+    (RM, "    # Special care if trying to set all ops to some config.\n", "    scope_recipes = self._scope_configs.setdefault(regex, [])\n    # Special care if trying to set all ops to some config.\n")],
+    ('C11.R4', 'C11.R5'), 'scope entry created before the support check: a refused add reserves the scope position (seeded a2-C11)')
+add('C11.resolution_caches', 'C11', (RM, "    return result_key, result_config\n", "    self._last_resolution = (target_op_name, scope_name, result_key)\n    return result_key, result_config\n"),
+    'C11.R1', 'resolution writes object state')
